@@ -91,6 +91,7 @@ type SpecFile struct {
 	Opaque    map[string]string
 	SortAlias map[string]string
 	Assumed   []string // free-text list of assumptions stated in the file
+	Closed        []string
 	GhostFields   []GhostParam
 	GhostFieldPkg []string
 	GhostVars   []GhostParam
@@ -100,7 +101,7 @@ type SpecFile struct {
 var clauseKw = map[string]bool{
 	"func": true, "requires": true, "ensures": true, "assigns": true, "loop": true, "decreases": true,
 	"ghost": true, "after": true, "before": true, "uf": true, "lemma": true, "axiom": true, "trusted": true, "pure": true, "opaque": true,
-	"sort": true, "ghostvar": true, "ghostfield": true, "free": true, "extern": true, "assume-note": true, "end": true,
+	"sort": true, "closedtype": true, "ghostvar": true, "ghostfield": true, "free": true, "extern": true, "assume-note": true, "end": true,
 }
 
 var labelRe = regexp.MustCompile(`^\[([A-Za-z0-9_.\-]+)\]\s*`)
@@ -356,6 +357,9 @@ func ParseSpecFile(path, pkgName, pkgPath string, sf *SpecFile) error {
 				return err
 			}
 			cur.After = append(cur.After, &AfterClause{Match: match, Before: kw == "before", Var: strings.TrimSpace(tail[:eqi]), Expr: e, Text: tail, Line: rc.line})
+		case "closedtype":
+			// closedtype pkg.Type : every non-nil value of this func type is a closure of a literal in the loaded packages
+			sf.Closed = append(sf.Closed, strings.TrimSpace(rest))
 		case "ghostfield":
 			// ghostfield Struct.name Type
 			f2 := strings.Fields(rest)
